@@ -542,6 +542,34 @@ pub fn run(case: &Case, ctx: &mut Ctx) -> CaseOutcome {
     let planted = case.params.get("planted").map(|s| s == "true").unwrap_or(false);
     let mut required_fault = planted && fi.map(|i| req.contains(&i)).unwrap_or(false);
     let mut faulty = faulty;
+    // must-fire conditions (DESIGN.md section 5, C04 table)
+    if fault == "F9-tampered-output" && h.tampers_applied == 0 {
+        // nothing to flip / delete / truncate in an empty output
+        required_fault = false;
+        ctx.stats.count("fault.F9_not_applicable_to_empty_output");
+    }
+    if fault == "F6-output-dev-full" && required_fault {
+        // an empty output never writes, so a full device is not a fault for it
+        if let Some(i) = fi {
+            let good: BTreeSet<usize> = [i].into_iter().collect();
+            tree::plant(&ctx.env.ref_root, &case.project);
+            let r = crate::env::rseq(
+                ctx.env,
+                &ctx.env.ref_root,
+                &a,
+                &a.closure(&good),
+                &last.cfg.base,
+                txtpp::Mode::Build,
+                last.cfg.trailing_newline,
+                &last.cfg.shell,
+            );
+            let empty = r.files.get(&a.sources[i].out).map(|b| b.is_empty()).unwrap_or(false);
+            if empty {
+                required_fault = false;
+                ctx.stats.count("fault.F6_not_applicable_to_empty_output");
+            }
+        }
+    }
     if let Some((exp, victim)) = &f8_expect {
         // the limit is a fault exactly when some product of the closure is longer than it
         required_fault = *exp;
